@@ -7,7 +7,9 @@
 //!     import resolvers, checkers, schema printer) and sent to the Lean model of the CLI driver (`Model/Cli.lean`);
 //!     its predicted outcome (exit code, command error, diagnostics, files listed, files written) is compared with
 //!     what the binary did.  `print_positioned_error` is compared text for text with its model on generated sources.
-//!  O: the property itself on the binary's behaviour (independent of the model).
+//!  O: the property itself on the binary's behaviour (independent of the model), judged against the INJECTED faults —
+//!     including faults that exist only in the context of an importing document (`c18/ctx.rs`: clusters of operation
+//!     files linked by `#import`, each valid on its own).
 use nitrogql_ast::base::Pos;
 use nitrogql_ast::{set_current_file_of_pos, OperationDocument, TypeSystemOrExtensionDocument};
 use nitrogql_checker::{check_operation_document, check_type_system_document, CheckError, OperationCheckContext};
@@ -22,6 +24,9 @@ use std::collections::{BTreeMap, BTreeSet, HashMap};
 use std::panic::AssertUnwindSafe;
 use std::path::{Path, PathBuf};
 
+#[path = "c18/ctx.rs"]
+mod ctx;
+
 // ---------------------------------------------------------------------------------------------
 // cases
 
@@ -32,6 +37,9 @@ struct Fault {
     file: String,
     /// parse-schema | schema-ext | schema-check | parse-operation | op-ext | op-import | op-check | generate
     stage: String,
+    /// context-dependent faults (`ctx-…`): the importing file(s) in whose context the construct of `file` is a fault;
+    /// a diagnostic naming `file` or one of these names the fault
+    alt: Vec<String>,
 }
 
 #[derive(Clone, Debug)]
@@ -55,7 +63,7 @@ impl Case {
     fn to_json(&self) -> Value {
         json!({
             "schemaFiles": self.schema_files, "opFiles": self.op_files, "yaml": self.yaml, "cmds": self.cmds, "blocked": self.blocked,
-            "faults": self.faults.iter().map(|f| json!({"kind": f.kind, "file": f.file, "stage": f.stage})).collect::<Vec<_>>(),
+            "faults": self.faults.iter().map(|f| if f.alt.is_empty() { json!({"kind": f.kind, "file": f.file, "stage": f.stage}) } else { json!({"kind": f.kind, "file": f.file, "stage": f.stage, "alt": f.alt}) }).collect::<Vec<_>>(),
             "schemaOutput": self.schema_output, "moduleSpecifier": self.module_specifier, "serverOutput": self.server_output,
             "resolversOutput": self.resolvers_output, "emitRuntime": self.emit_runtime, "mode": self.mode,
         })
@@ -71,7 +79,7 @@ impl Case {
             yaml: v["yaml"].as_str().unwrap_or("").to_string(),
             cmds: strs(&v["cmds"]),
             blocked: strs(&v["blocked"]),
-            faults: v["faults"].as_array().map(|a| a.iter().map(|f| Fault { kind: f["kind"].as_str().unwrap_or("").into(), file: f["file"].as_str().unwrap_or("").into(), stage: f["stage"].as_str().unwrap_or("").into() }).collect()).unwrap_or_default(),
+            faults: v["faults"].as_array().map(|a| a.iter().map(|f| Fault { kind: f["kind"].as_str().unwrap_or("").into(), file: f["file"].as_str().unwrap_or("").into(), stage: f["stage"].as_str().unwrap_or("").into(), alt: strs(&f["alt"]) }).collect()).unwrap_or_default(),
             schema_output: v["schemaOutput"].as_str().map(|s| s.to_string()),
             module_specifier: v["moduleSpecifier"].as_bool().unwrap_or(false),
             server_output: v["serverOutput"].as_str().map(|s| s.to_string()),
@@ -569,7 +577,10 @@ impl<'a> Ctx<'a> {
                     return;
                 }
             };
-            if stages.printer_panics {
+            // a printer that panics in-process on an accepted document is C08's matter — but only when the project is
+            // meant to reach the printers: with an injected fault before the generate stage the binary must stop at
+            // check, so the run is still judged (against the injected fault)
+            if stages.printer_panics && !case.faults.iter().any(|f| f.stage != "generate") {
                 self.rep.count("skipped:printer-panicked(C08)");
                 let _ = std::fs::remove_dir_all(&dir);
                 return;
@@ -682,9 +693,11 @@ impl<'a> Ctx<'a> {
         if !case.has_generate() && !changed.is_empty() {
             rep.fail("O", "check-writes-files", &format!("[{fmt}] `{}` changed {changed:?}", case.cmds.join(" ")), cj.clone());
         }
+        // judged against the INJECTED faults: a project with a fault before the generate stage gets nothing written,
+        // whatever the exit code says
         let early_fault = case.faults.iter().any(|f| f.stage != "generate");
-        if code == 1 && early_fault && !changed.is_empty() {
-            rep.fail("O", &format!("generate-not-gated:{}", fault_sig(case, None)), &format!("[{fmt}] check failed but {changed:?} were written"), cj.clone());
+        if early_fault && !changed.is_empty() {
+            rep.fail("O", &format!("generate-not-gated:{}", fault_sig(case, None)), &format!("[{fmt}] exit {code}: the project has a fault that check must report, but {changed:?} were written"), cj.clone());
         }
         for (k, v) in before {
             if all_inputs.iter().any(|(p, _, _)| *p == abs(k)) && after.get(k) != Some(v) {
@@ -953,16 +966,23 @@ impl<'a> Ctx<'a> {
                         rep.fail("O", &format!("parse-unlocated:{fmt}:{}", f.kind), &format!("[{fmt}] exit {code}, but the syntax error of {} is not reported with file, line and column", f.file), cj.clone());
                     }
                 }
-            } else if fmt != "human" {
+            } else {
                 let schema_faults: Vec<&Fault> = case.faults.iter().filter(|f| f.stage.starts_with("schema-")).collect();
                 let op_faults: Vec<&Fault> = case.faults.iter().filter(|f| f.stage.starts_with("op-")).collect();
                 // a schema that is not accepted ends the check before operations are looked at (by design)
                 let group = if !schema_faults.is_empty() { schema_faults } else { op_faults };
                 let first = group.iter().map(|f| stage_rank(&f.stage)).min();
                 for f in &group {
-                    let p = abs(&f.file);
-                    if !structured_named.contains(&p) {
-                        let first_stage = STAGE_ORDER[first.unwrap()];
+                    let first_stage = STAGE_ORDER[first.unwrap()];
+                    // a context-dependent fault (`ctx-…`) is named by a diagnostic located in the file holding the
+                    // construct or in an importing file in whose context it is a fault
+                    let is_ctx = f.kind.starts_with("ctx-");
+                    if fmt == "human" && !(is_ctx && f.stage == first_stage) {
+                        continue;
+                    }
+                    let names = if fmt == "human" { &text_named } else { &structured_named };
+                    let named = names.contains(&abs(&f.file)) || f.alt.iter().any(|a| names.contains(&abs(a)));
+                    if !named {
                         let others_same_stage = group.iter().filter(|g| g.stage == f.stage && g.file != f.file).count();
                         let sig = if f.stage != first_stage {
                             format!("unnamed:{}:masked-by:{}", f.stage, first_stage)
@@ -1050,7 +1070,10 @@ fn op_fault(rng: &mut Rng, n: usize, other_file: Option<&str>) -> (String, Strin
     }
 }
 
-fn gen_case(rng: &mut Rng, want_faults: usize) -> Case {
+/// `ctx_mode`: `Some(faulty)` = the project gets a cluster of operation files linked by `#import` (c18/ctx.rs) with /
+/// without a context-dependent fault and is run with a standard command list; `None` = it gets one now and then.
+/// Returns the case and the features of the cluster (for the input distribution of the report).
+fn gen_case(rng: &mut Rng, want_faults: usize, ctx_mode: Option<bool>) -> (Case, Vec<String>) {
     let gcfg = nvh::gen::GenCfg { hostile_text: false, max_depth: 2, ..Default::default() };
     let schema = nvh::gen::gen_schema(rng, &gcfg);
     let items = schema.doc.items.clone();
@@ -1102,7 +1125,7 @@ fn gen_case(rng: &mut Rng, want_faults: usize) -> Case {
                 non_ascii = true;
             }
             schema_files[i].1.push_str(&text);
-            faults.push(Fault { kind, file: schema_files[i].0.clone(), stage });
+            faults.push(Fault { kind, file: schema_files[i].0.clone(), stage, alt: vec![] });
         } else if choice < 8 {
             let j = rng.below(op_files.len());
             let other = if op_files.len() > 1 { Some(format!("o{}.graphql", (j + 1) % op_files.len())) } else { None };
@@ -1116,22 +1139,22 @@ fn gen_case(rng: &mut Rng, want_faults: usize) -> Case {
             } else {
                 op_files[j].1.push_str(&text);
             }
-            faults.push(Fault { kind, file: op_files[j].0.clone(), stage });
+            faults.push(Fault { kind, file: op_files[j].0.clone(), stage, alt: vec![] });
         } else {
             // faults of the generate stage: options, unmapped scalar, blocked output path
             match rng.below(4) {
                 0 if !faults.iter().any(|f: &Fault| f.kind == "no-schema-output") => {
                     module_specifier = false;
-                    faults.push(Fault { kind: "no-schema-output".into(), file: String::new(), stage: "generate".into() });
+                    faults.push(Fault { kind: "no-schema-output".into(), file: String::new(), stage: "generate".into(), alt: vec![] });
                 }
                 1 if schema_output.as_deref() == Some("generated/schema.d.ts") && !pc.emit_schema_runtime => {
                     pc.emit_schema_runtime = true;
-                    faults.push(Fault { kind: "runtime-to-dts".into(), file: String::new(), stage: "generate".into() });
+                    faults.push(Fault { kind: "runtime-to-dts".into(), file: String::new(), stage: "generate".into(), alt: vec![] });
                 }
                 2 if schema_output.is_some() => {
                     let i = rng.below(schema_files.len());
                     schema_files[i].1.push_str(&format!("\nscalar Unmapped{n}\n"));
-                    faults.push(Fault { kind: "unmapped-scalar".into(), file: schema_files[i].0.clone(), stage: "generate".into() });
+                    faults.push(Fault { kind: "unmapped-scalar".into(), file: schema_files[i].0.clone(), stage: "generate".into(), alt: vec![] });
                 }
                 _ => {
                     let mut outs: Vec<String> = vec![];
@@ -1143,7 +1166,7 @@ fn gen_case(rng: &mut Rng, want_faults: usize) -> Case {
                     let b = if rng.coin() && Some(&o) != server_output.as_ref() { format!("{o}.map") } else { o };
                     if !blocked.contains(&b) {
                         blocked.push(b);
-                        faults.push(Fault { kind: "blocked-output".into(), file: String::new(), stage: "generate".into() });
+                        faults.push(Fault { kind: "blocked-output".into(), file: String::new(), stage: "generate".into(), alt: vec![] });
                     }
                 }
             }
@@ -1169,7 +1192,7 @@ fn gen_case(rng: &mut Rng, want_faults: usize) -> Case {
         let k = 2 + rng.below(2).min(op_files.len() - 2);
         for &j in idx.iter().take(k) {
             op_files[j].1 = format!("{pad}{body}\n{}", op_files[j].1);
-            faults.push(Fault { kind: format!("copy-paste-{kind}"), file: op_files[j].0.clone(), stage: "op-check".into() });
+            faults.push(Fault { kind: format!("copy-paste-{kind}"), file: op_files[j].0.clone(), stage: "op-check".into(), alt: vec![] });
         }
     }
     if want_faults > 0 && schema_files.len() >= 2 && rng.chance(1, 5) {
@@ -1182,10 +1205,44 @@ fn gen_case(rng: &mut Rng, want_faults: usize) -> Case {
         for (k, i) in [0usize, 1].iter().enumerate() {
             let name = ["CpA", "CpB"][k];
             schema_files[*i].1 = format!("type {name} {{ {pad}f: NopeTypeCP }}\n{}", schema_files[*i].1);
-            faults.push(Fault { kind: "copy-paste-unknown-type".into(), file: schema_files[*i].0.clone(), stage: "schema-check".into() });
+            faults.push(Fault { kind: "copy-paste-unknown-type".into(), file: schema_files[*i].0.clone(), stage: "schema-check".into(), alt: vec![] });
         }
     }
     let _ = non_ascii;
+    // context-dependent faults across #import: every file of the cluster is valid on its own
+    let mut ctx_features = vec![];
+    let ctx_kind = match ctx_mode {
+        Some(faulty) => Some(ctx::CtxKind::pick(rng, faulty)),
+        None if rng.chance(1, 4) => {
+            let faulty = want_faults > 0 && rng.coin();
+            Some(ctx::CtxKind::pick(rng, faulty))
+        }
+        None => None,
+    };
+    let mut cmds = cmds;
+    if let Some(kind) = ctx_kind {
+        let n = 40 + rng.below(50);
+        let sc = ctx::gen_ctx(rng, n, &schema.query, kind);
+        let i = rng.below(schema_files.len());
+        schema_files[i].1.push_str(&sc.schema_add);
+        op_files.extend(sc.files);
+        // the CLI reads the files of a glob in sorted order; file indices follow it
+        op_files.sort_by(|a, b| a.0.cmp(&b.0));
+        for f in sc.faults {
+            faults.push(Fault { kind: f.kind, file: f.file, stage: "op-check".into(), alt: f.alt });
+        }
+        ctx_features = sc.features;
+        if ctx_mode.is_some() {
+            cmds = match rng.below(4) {
+                0 => vec!["check"],
+                1 => vec!["generate"],
+                _ => vec!["check", "generate"],
+            }
+            .into_iter()
+            .map(|s| s.to_string())
+            .collect();
+        }
+    }
     let schema_output = if faults.iter().any(|f| f.kind == "no-schema-output") { None } else { schema_output };
     let mut outputs: Vec<(&str, &str)> = vec![];
     if let Some(o) = &schema_output {
@@ -1201,7 +1258,7 @@ fn gen_case(rng: &mut Rng, want_faults: usize) -> Case {
         outputs.push(("resolversOutput", o));
     }
     let yaml = pc.yaml("schema/*.graphql", "ops/*.graphql", &outputs);
-    Case {
+    let case = Case {
         schema_files,
         op_files,
         yaml,
@@ -1214,7 +1271,8 @@ fn gen_case(rng: &mut Rng, want_faults: usize) -> Case {
         resolvers_output,
         emit_runtime: pc.emit_schema_runtime,
         mode: pc.mode.to_string(),
-    }
+    };
+    (case, ctx_features)
 }
 
 /// hand-written projects: minimised past failures and the situations the model distinguishes
@@ -1227,7 +1285,7 @@ fn corpus() -> Vec<Case> {
             yaml: "schema: \"schema/*.graphql\"\ndocuments: \"ops/*.graphql\"\nextensions:\n  nitrogql:\n    generate:\n      mode: with-loader-ts-5.0\n      schemaOutput: \"generated/schema.d.ts\"\n".to_string(),
             cmds: cmds.iter().map(|s| s.to_string()).collect(),
             blocked: vec![],
-            faults: faults.iter().map(|(k, f, s)| Fault { kind: k.to_string(), file: f.to_string(), stage: s.to_string() }).collect(),
+            faults: faults.iter().map(|(k, f, s)| Fault { kind: k.to_string(), file: f.to_string(), stage: s.to_string(), alt: vec![] }).collect(),
             schema_output,
             module_specifier: false,
             server_output: None,
@@ -1288,6 +1346,52 @@ fn corpus() -> Vec<Case> {
         base(vec![s0, ("schema/s1.graphql", "type User { id: ID! name: String }\nscalar Date\n")], vec![o0], vec!["check", "generate"], vec![("unmapped-scalar", "schema/s1.graphql", "generate")]),
         // duplicate of a built-in scalar
         base(vec![s0, ("schema/s1.graphql", "type User { id: ID! name: String }\nscalar String\n")], vec![o0], vec!["check"], vec![("duplicate-builtin", "schema/s1.graphql", "schema-ext")]),
+    ]
+    .into_iter()
+    .chain(ctx_corpus(&base))
+    .collect()
+}
+
+/// projects whose operation files are linked by `#import`: every file is valid on its own, the fault exists only in the
+/// context of an importing document (the diagnostic may be located in the imported file or in the importer)
+fn ctx_corpus(base: &dyn Fn(Vec<(&str, &str)>, Vec<(&str, &str)>, Vec<&str>, Vec<(&str, &str, &str)>) -> Case) -> Vec<Case> {
+    let sq = ("schema/s0.graphql", "type Query { me: User! user(id: ID!): User }\n");
+    let su = ("schema/s1.graphql", "type User { id: ID! name: String friends(first: Int, all: Boolean!): [User!]! pet: Pet }\ntype Pet { id: ID! }\n");
+    let with_alt = |mut c: Case, alts: Vec<Vec<&str>>| -> Case {
+        for (f, a) in c.faults.iter_mut().zip(alts) {
+            f.alt = a.iter().map(|s| s.to_string()).collect();
+        }
+        c
+    };
+    let frag_first = ("ops/f.graphql", "fragment Friends on User {\n  id\n  friends(first: $n, all: true) { id }\n}\n");
+    let frag_all = ("ops/f.graphql", "fragment Friends on User { id friends(all: $all) { id } }\n");
+    vec![
+        // valid: two importers (by name, wildcard) declare the variable of the imported fragment
+        base(vec![sq, su], vec![frag_first, ("ops/o0.graphql", "#import Friends from \"./f.graphql\"\nquery Q0($n: Int) { me { ...Friends } }\n"), ("ops/o1.graphql", "#import * from \"./f.graphql\"\nquery Q1($n: Int!) { me { ...Friends } }\n")], vec!["check", "generate"], vec![]),
+        // the importing operation does not declare the variable the imported fragment uses
+        with_alt(base(vec![sq, su], vec![frag_first, ("ops/o0.graphql", "#import Friends from \"./f.graphql\"\nquery Q0 { me { ...Friends } }\n")], vec!["check", "generate"],
+            vec![("ctx-undeclared-variable", "ops/f.graphql", "op-check")]), vec![vec!["ops/o0.graphql"]]),
+        // one of two importers declares it, the other does not (wildcard import)
+        with_alt(base(vec![sq, su], vec![frag_first, ("ops/o0.graphql", "#import * from \"./f.graphql\"\nquery Q0($n: Int) { me { ...Friends } }\n"), ("ops/o1.graphql", "#import * from \"./f.graphql\"\nquery Q1($id: ID!) { user(id: $id) { ...Friends } }\n")], vec!["generate"],
+            vec![("ctx-undeclared-variable", "ops/f.graphql", "op-check")]), vec![vec!["ops/o1.graphql"]]),
+        // declared with another type; three-file chain (o0 -> m -> f), the fragment file sorts after its importers
+        with_alt(base(vec![sq, su], vec![("ops/m.graphql", "#import * from \"./z.graphql\"\nfragment Me on User { name ...Friends }\n"), ("ops/o0.graphql", "#import Me from \"./m.graphql\"\nquery Q0($n: String) { me { ...Me } }\n"), ("ops/z.graphql", frag_first.1)], vec!["check"],
+            vec![("ctx-variable-type", "ops/z.graphql", "op-check")]), vec![vec!["ops/o0.graphql"]]),
+        // declared nullable where a non-null value is required
+        with_alt(base(vec![sq, su], vec![frag_all, ("ops/o0.graphql", "#import Friends from \"./f.graphql\"\nquery Q0($all: Boolean) { me { ...Friends } }\n")], vec!["check", "generate"],
+            vec![("ctx-variable-nullability", "ops/f.graphql", "op-check")]), vec![vec!["ops/o0.graphql"]]),
+        // a fragment imported by name spreads a sibling that was not imported
+        with_alt(base(vec![sq, su], vec![("ops/f.graphql", "fragment A on User { id ...B }\nfragment B on User { name }\n"), ("ops/o0.graphql", "#import A from \"./f.graphql\"\nquery Q0 { me { ...A } }\n")], vec!["check"],
+            vec![("ctx-sibling-not-imported", "ops/f.graphql", "op-check")]), vec![vec!["ops/o0.graphql"]]),
+        // the same through a middle file: only the middle file imports by name
+        with_alt(base(vec![sq, su], vec![("ops/f.graphql", "fragment A on User { id ...B }\nfragment B on User { name }\n"), ("ops/m.graphql", "#import A from \"./f.graphql\"\nfragment M on User { ...A }\n"), ("ops/o0.graphql", "#import * from \"./m.graphql\"\nquery Q0 { me { ...M } }\n")], vec!["check", "generate"],
+            vec![("ctx-sibling-not-imported", "ops/f.graphql", "op-check")]), vec![vec!["ops/m.graphql", "ops/o0.graphql"]]),
+        // the imported fragment's type condition cannot apply where the importer spreads it
+        with_alt(base(vec![sq, su], vec![("ops/f.graphql", "fragment P on Pet { id }\n"), ("ops/o0.graphql", "#import P from \"./f.graphql\"\nquery Q0 { me { ...P } }\n")], vec!["check"],
+            vec![("ctx-type-condition", "ops/o0.graphql", "op-check")]), vec![vec!["ops/f.graphql"]]),
+        // a local fragment with the name of an imported one
+        with_alt(base(vec![sq, su], vec![("ops/f.graphql", "fragment A on User { id }\n"), ("ops/o0.graphql", "#import A from \"./f.graphql\"\nfragment A on User { name }\nquery Q0 { me { ...A } }\n")], vec!["check", "generate"],
+            vec![("ctx-duplicate-fragment-name", "ops/f.graphql", "op-check")]), vec![vec!["ops/o0.graphql"]]),
     ]
 }
 
@@ -1392,7 +1496,7 @@ fn main() {
     std::env::set_var("NO_COLOR", "1");
     let mut rep = Report::new(
         "C18",
-        "generated projects (1-3 schema files, 1-4 operation files, 0-3 injected faults of 25 kinds over parse / schema / operation / generate stages, generate options, command lists) × three output formats, each run through the real binary; non-trivial = project with at least one injected fault or a generate command (distinct by project text and command list)",
+        "generated projects (1-3 schema files, 1-4 operation files, 0-3 injected faults of 25 kinds over parse / schema / operation / generate stages + 6 kinds of context-dependent faults across 2- and 3-file #import chains (judged by the generator's knowledge of the injected fault), generate options, command lists) × three output formats, each run through the real binary; non-trivial = project with at least one injected fault or a generate command (distinct by project text and command list)",
     );
     let cli = args.extra.get("cli").cloned().unwrap_or_default();
     if cli.is_empty() || !Path::new(&cli).exists() {
@@ -1434,10 +1538,26 @@ fn main() {
                 12..=16 => 2,
                 _ => 3,
             };
-            let case = gen_case(&mut rng, k);
+            let (case, feats) = gen_case(&mut rng, k, None);
+            for f in &feats {
+                ctx.rep.count(&format!("feature:{f}"));
+            }
             if i < 4 {
                 ctx.rep.sample(json!({"cmds": case.cmds, "faults": case.faults.iter().map(|f| format!("{}:{}@{}", f.kind, f.stage, f.file)).collect::<Vec<_>>(),
                     "schemaFiles": case.schema_files.len(), "opFiles": case.op_files.len(), "mode": case.mode, "blocked": case.blocked}));
+            }
+            ctx.run_case(&case);
+        }
+        // projects whose only fault (if any) is context-dependent across #import, so that no other stage masks it
+        let n_ctx = args.budget(28, 400);
+        for i in 0..n_ctx {
+            let (case, feats) = gen_case(&mut rng, 0, Some(i % 4 != 3));
+            for f in &feats {
+                ctx.rep.count(&format!("feature:{f}"));
+            }
+            if i < 2 {
+                ctx.rep.sample(json!({"cmds": case.cmds, "faults": case.faults.iter().map(|f| format!("{}:{}@{} (or {:?})", f.kind, f.stage, f.file, f.alt)).collect::<Vec<_>>(),
+                    "opFiles": case.op_files}));
             }
             ctx.run_case(&case);
         }
